@@ -123,7 +123,9 @@ impl Tracker for PnT {
                 if la > pn || pn > VARINT_MAX {
                     Class::Probe
                 } else if pn - la >= 1 << 31 {
-                    long_haul()
+                    // the SENDING side: a peer that withholds acknowledgements and elicits 2^31 ACK-only packets gets
+                    // here at a cost (recorded finding, re-observed from corpus/pn/long-haul-2p31.ops on every run)
+                    Class::Peer
                 } else {
                     Class::Peer
                 }
@@ -344,6 +346,19 @@ impl Tracker for HeaderT {
             }
             _ => Class::Contract,
         }
+    }
+
+    /// The recorded finding `C10-panic-on-api-call.header.pkt@packet:assertion-failed-len-Nusize-pow-N` needs a
+    /// long-header packet of 2^14 bytes or more, i.e. a configured MTU above 16383 (not the default): payloads
+    /// that can reach that size (with up to 64 header bytes) are their own class, so the same assertion failing on
+    /// a packet that fits a 14-bit length is a different key.
+    fn config_class(&self, w: &[&str]) -> Option<String> {
+        if w.get(1).copied() != Some("pkt") {
+            return None;
+        }
+        let pl = hexlen(w.get(2)?)?;
+        let extra = header_text(w.get(3..)?).map_or(0, |x| x.1);
+        (pl + extra + 64 >= 1 << 14).then(|| "mtu-ge-2^14".to_string())
     }
 }
 
